@@ -19,7 +19,11 @@ TrParent0 == <<0, 0, 0, 0, 0, 0>>
 TrParOf   == [c \in {"r", "core", "sfp", "asm", "blk", "cmp"} |-> Par]
 TrGridCls == {"core", "sfp", "asm", "blk"}
 TrMatCls  == {"cmp"}
-TrActs    == {"Enter", "Exit", "Assign", "AssignRO", "SetCache", "SetGrid", "DeepCopy", "Pickle", "MakeReadOnly"}
+TrActs    == {"Enter", "Exit", "Assign", "AssignRO", "SetCache", "SetGrid", "DeepCopy", "Pickle", "MakeReadOnly",
+              "CallRO", "WriteDb", "LoadDb", "LoadDbRO"}
+TrFamilies == {"r", "core", "sfp", "asm", "blk", "cmp"}
+\* the recorder names the call; any name is accepted, the effect (none) is what is checked
+TrCalls   == [c \in TrFamilies |-> {"call"}]
 
 TInit ==
     /\ tid \in 1..NT /\ l = 1
@@ -32,6 +36,7 @@ TInit ==
         /\ cass   = [o \in Node |-> IF o <= n0 THEN T.cass[o] ELSE ALL]
         /\ grid   = [o \in Node |-> IF o <= n0 THEN T.grid[o] ELSE 0]
         /\ serial = [o \in Node |-> IF o <= n0 THEN o ELSE 0] /\ nextSerial = n0 + 1
+    /\ db = NoDb /\ ident = [o \in Node |-> o]
     /\ cbak = [o \in Node |-> <<>>]
     /\ dass = [c \in Classes |-> [p \in Par |-> NEVER]] /\ dbak = [c \in Classes |-> [p \in Par |-> <<>>]]
     /\ cache = [o \in Node |-> 0] /\ cachebak = [o \in Node |-> <<>>]
@@ -56,6 +61,10 @@ TStep ==
     \/ A.n = "SetGrid" /\ SetGridV(A.o, A.g)
     \/ A.n \in {"DeepCopy", "Pickle"} /\ Copy(A.x, A.n) /\ act'.ids = A.ids
     \/ A.n = "MakeReadOnly" /\ MakeReadOnly(A.r)
+    \/ A.n = "CallRO" /\ CallRO(A.o, "call")
+    \/ A.n = "WriteDb" /\ WriteDb(A.r)
+    \/ A.n \in {"LoadDb", "LoadDbRO"} /\ LoadDbV(A.n, FALSE, PostVal, PostFn(Ev.post.rest), PostFn(Ev.post.cass),
+                                                 PostFn(Ev.post.grid)) /\ act'.ids = A.ids
     \/ A.n = "Havoc" /\ Havoc(A.o, SeqRange(A.touched), PostVal, PostFn(Ev.post.rest), PostFn(Ev.post.cass),
                                  PostFn(Ev.post.cache), PostFn(Ev.post.mcache))
 
